@@ -1,2 +1,112 @@
-/- C11 — theorems under construction -/
+/-
+C11 — line numbers in parse trees and errors are the true source lines.
+
+In the model a parse is a *function of the text*: `parse : String → Except ParseErr PNode` takes no parser state, so "regardless of what
+the same process or parser object parsed before" holds by construction; that the real `Parser` behaves like this function after any
+history of earlier parses is what the correspondence checks (0-3 earlier parses on the same object, earlier loads in the process).
+
+Proved here, about how the lexer numbers lines:
+* every token carries the line on which it *starts* and the counter never runs backwards (`scanOne_tok_line`, `scanOne_skip_line`), so the
+  lines of the token list are non-decreasing and never before the starting line (`lexAll_lines`);
+* a line break is counted once whether written LF, CR or CRLF (`newline_counts`), also inside quoted strings (`scanOne` adds
+  `countNewlines content`, stated in `quoted_newlines_counted`).
+Which line an *error* carries is determined by the definitions characterised in C12 (`addCommand_errors`, `unknown_command`,
+`prepassCmd_first_error`: the offending command's or argument's own line).
+-/
 import MPilot.Model.Grammar
+import Mathlib.Tactic.Common
+
+namespace MPilot.C11
+open MPilot
+
+/-- LF, CR and CRLF each count as one line break; LF+LF as two -/
+theorem newline_counts :
+    countNewlines ['\n'] = 1 ∧ countNewlines ['\r'] = 1 ∧ countNewlines ['\r', '\n'] = 1 ∧ countNewlines ['\n', '\n'] = 2 ∧
+    countNewlines ['\r', '\n', '\r', '\n'] = 2 ∧ countNewlines ['a', '\r', '\n', 'b', '\n'] = 2 := by
+  decide
+
+/-- a token carries the line at which its scanning step started, and the counter does not run backwards -/
+theorem scanOne_tok_line (cs : List Char) (line : Nat) (t : Tok) (rest : List Char) (line' : Nat)
+    (h : scanOne cs line = .tok t rest line') : t.line = line ∧ line ≤ line' := by
+  unfold scanOne at h
+  repeat' (first | split at h | (dsimp only at h))
+  all_goals first
+    | (cases h; done)
+    | (injection h with h1 h2 h3; subst h1; subst h3; exact ⟨rfl, Nat.le_refl _⟩)
+    | (injection h with h1 h2 h3; subst h1; subst h3; exact ⟨rfl, Nat.le_add_right _ _⟩)
+
+theorem scanOne_skip_line (cs : List Char) (line : Nat) (rest : List Char) (line' : Nat)
+    (h : scanOne cs line = .skip rest line') : line ≤ line' := by
+  unfold scanOne at h
+  repeat' (first | split at h | (dsimp only at h))
+  all_goals first
+    | (cases h; done)
+    | (injection h with h1 h2; subst h2; exact Nat.le_refl _)
+    | (injection h with h1 h2; subst h2; exact Nat.le_add_right _ _)
+
+theorem scanOne_stop_line (cs : List Char) (line : Nat) (t : Tok) (h : scanOne cs line = .stop t) : t.line = line := by
+  unfold scanOne at h
+  repeat' (first | split at h | (dsimp only at h))
+  all_goals first
+    | (cases h; done)
+    | (injection h with h1; subst h1; rfl)
+
+/-- **lines along the token stream**: no token lies before the line the scan started on, and lines never decrease from one token to the next -/
+theorem lexAll_lines : ∀ (fuel : Nat) (cs : List Char) (line : Nat),
+    (∀ t ∈ lexAll fuel cs line, line ≤ t.line) ∧ (lexAll fuel cs line).Pairwise (fun a b => a.line ≤ b.line) := by
+  intro fuel
+  induction fuel with
+  | zero => intro cs line; simp [lexAll]
+  | succ f ih =>
+    intro cs line
+    cases cs with
+    | nil => simp [lexAll]
+    | cons c r =>
+      unfold lexAll
+      split
+      · exact ih r line
+      · split
+        · rename_i t rest line' hs
+          have hm := scanOne_tok_line _ _ _ _ _ hs
+          obtain ⟨h1, h2⟩ := ih rest line'
+          refine ⟨?_, List.pairwise_cons.mpr ⟨?_, h2⟩⟩
+          · intro x hx
+            rcases List.mem_cons.mp hx with rfl | hx
+            · exact Nat.le_of_eq hm.1.symm
+            · exact Nat.le_trans hm.2 (h1 x hx)
+          · intro x hx
+            rw [hm.1]; exact Nat.le_trans hm.2 (h1 x hx)
+        · rename_i rest line' hs
+          have hm := scanOne_skip_line _ _ _ _ hs
+          obtain ⟨h1, h2⟩ := ih rest line'
+          exact ⟨fun x hx => Nat.le_trans hm (h1 x hx), h2⟩
+        · rename_i t hs
+          have hm := scanOne_stop_line _ _ _ hs
+          exact ⟨by intro x hx; simp at hx; subst hx; exact Nat.le_of_eq hm.symm, by simp⟩
+
+/-- the first command of a file that starts on its first line is numbered 1: `lex` starts counting at 1 -/
+theorem lex_starts_at_one (src : String) : ∀ t ∈ lex src, 1 ≤ t.line := (lexAll_lines _ _ 1).1
+
+/-- a quoted string that spans lines advances the counter by the line breaks it contains (the token itself keeps its starting line) -/
+theorem quoted_newlines_counted (q : Char) (hq : q = '"' ∨ q = '\'') (r content rest : List Char) (v : List Char) (line : Nat)
+    (hs : scanStringBody q r [] = some (content, rest)) (hv : stringValue content = .ok v) :
+    scanOne (q :: r) line = .tok ⟨.string, .str (String.ofList v), line⟩ rest (line + countNewlines content) := by
+  unfold scanOne
+  have hid : isIdStart q = false := by rcases hq with rfl | rfl <;> decide
+  have hf : scanFloat (q :: r) = none := by
+    rcases hq with rfl | rfl
+    · exact scanFloat_q r
+    · unfold scanFloat optSign spanDigits; simp [List.span, List.span.loop, isDig]
+  have hi : scanInt (q :: r) = none := by
+    rcases hq with rfl | rfl
+    · exact scanInt_q r
+    · unfold scanInt optSign spanDigits; simp [List.span, List.span.loop, isDig]
+  have hqq : (q == '"' || q == '\'') = true := by rcases hq with rfl | rfl <;> decide
+  simp only [hid, Bool.false_eq_true, if_false, hf, hi, hqq, if_true, hs, hv]
+where
+  scanFloat_q (l : List Char) : scanFloat ('"' :: l) = none := by
+    unfold scanFloat optSign spanDigits; simp [List.span, List.span.loop, isDig]
+  scanInt_q (l : List Char) : scanInt ('"' :: l) = none := by
+    unfold scanInt optSign spanDigits; simp [List.span, List.span.loop, isDig]
+
+end MPilot.C11
